@@ -8,7 +8,8 @@ Open Scope Z_scope.
    kind / number of outputs of the module, the module and autograd state before the call,
    batch_size, X, args.                                                                  *)
 Record call := Call {
-  c_kind : okind; c_heads : nat; c_state : mstate; c_b : Z; c_X : list row; c_args : list arg }.
+  c_kind : okind; c_heads : nat; c_state : mstate; c_b : Z; c_X : list row; c_args : list arg;
+  c_adt : list nat (* dtype code of every arg as given by the caller *) }.
 
 (* observed: the returned value (or "raised") and the trace of forward calls *)
 Definition outcome := (res yval * list callrec)%type.
@@ -33,6 +34,11 @@ Definition head_ok (m : Z) (X : list row) (args : list arg) (o : list row) : boo
 Definition flags_ok (t : list callrec) : bool :=
   forallb (fun c => forallb negb (cr_training c) && negb (cr_grad c)) t.
 
+(* the model is given args[k][i] itself: every forward call receives every arg in the dtype the
+   caller passed (the values are covered by [head_ok]: the outputs encode them exactly) *)
+Definition dtypes_ok (c : list nat) (t : list callrec) : bool :=
+  forallb (fun r => list_eqb Nat.eqb (cr_adt r) c) t.
+
 Definition args_aligned (c : call) : bool :=
   forallb (fun a => (length a =? length (c_X c))%nat) (c_args c).
 
@@ -45,7 +51,7 @@ Definition spec_ok (c : call) (o : outcome) : bool :=
       match fst o with
       | Ok (YT r) =>
           match c_kind c with
-          | KTensor => head_ok 1 (c_X c) (c_args c) r && flags_ok (snd o)
+          | KTensor => head_ok 1 (c_X c) (c_args c) r && flags_ok (snd o) && dtypes_ok (c_adt c) (snd o)
           | _ => false
           end
       | Ok (YM hs) =>
@@ -54,7 +60,7 @@ Definition spec_ok (c : call) (o : outcome) : bool :=
           | _ => (length hs =? c_heads c)%nat &&
                  forallb (fun j => head_ok (Z.of_nat j + 1) (c_X c) (c_args c) (nth j hs []))
                          (seq 0 (c_heads c)) &&
-                 flags_ok (snd o)
+                 flags_ok (snd o) && dtypes_ok (c_adt c) (snd o)
           end
       | Err => false
       end
@@ -77,7 +83,7 @@ Definition trace_ok (c : call) (t : list callrec) : bool :=
                     forallb (fun a => (length a =? length (cr_X r))%nat) (cr_args r)) t.
 
 Definition model (c : call) : outcome :=
-  predict_model (g_ex (c_kind c) (enc_heads (nheads c))) (c_state c) (c_b c) (c_X c) (c_args c).
+  predict_model (g_ex (c_kind c) (enc_heads (nheads c))) (c_state c) (c_b c) (c_X c) (c_args c) (c_adt c).
 
 Definition yval_eqb (a b : yval) : bool :=
   match a, b with
@@ -88,7 +94,8 @@ Definition yval_eqb (a b : yval) : bool :=
 
 Definition callrec_eqb (a b : callrec) : bool :=
   list_eqb Bool.eqb (cr_training a) (cr_training b) && Bool.eqb (cr_grad a) (cr_grad b) &&
-  rows_eqb (cr_X a) (cr_X b) && list_eqb rows_eqb (cr_args a) (cr_args b).
+  rows_eqb (cr_X a) (cr_X b) && list_eqb rows_eqb (cr_args a) (cr_args b) &&
+  list_eqb Nat.eqb (cr_adt a) (cr_adt b).
 
 Definition outcome_eqb (a b : outcome) : bool :=
   res_eqb yval_eqb (fst a) (fst b) && list_eqb callrec_eqb (snd a) (snd b).
